@@ -396,6 +396,24 @@ Qed.
 Theorem grpc_no_password_accepts md : grpc_password_ok [] md = true.
 Proof. reflexivity. Qed.
 
+(** The gate in front of any method's handler: a rejected call leaves the state alone, returns
+    no response message and its status does not depend on the state. *)
+Theorem grpc_serve_rejects {state req resp} (handler : req -> state -> state * resp) pw md r :
+  grpc_password_ok pw md = false ->
+  forall st, grpc_serve handler pw md r st = (st, inl (grpc_gate pw md)) /\ grpc_gate pw md <> AuthAccept.
+Proof.
+  unfold grpc_password_ok, grpc_serve. intros H st.
+  destruct (grpc_gate pw md); [discriminate| | |]; split; (reflexivity || discriminate).
+Qed.
+
+Theorem grpc_serve_accepts {state req resp} (handler : req -> state -> state * resp) pw md r :
+  grpc_password_ok pw md = true ->
+  forall st, grpc_serve handler pw md r st = (fst (handler r st), inr (snd (handler r st))).
+Proof.
+  unfold grpc_password_ok, grpc_serve. intros H st.
+  destruct (grpc_gate pw md); try discriminate. destruct (handler r st); reflexivity.
+Qed.
+
 (* ------------------------------------------------------------------------- *)
 (** * TLS *)
 
@@ -439,6 +457,34 @@ Proof.
     destruct ca as [|a0 ca]; cbn [is_empty negb].
     + destruct v; discriminate.
     + destruct (fo_read o _); [|discriminate]. destruct (fo_append_pem o _); discriminate.
+Qed.
+
+(** The decision table of GetTLSConfig over all flag combinations and every file oracle. *)
+Theorem tls_decision_table sc o :
+  oracle_wf o ->
+  match tls_decision sc o with
+  | TlsErr _ => True
+  | NoTLS => sc_cert sc = [] /\ sc_verify sc = false /\ sc_ca sc = []
+  | TLS c =>
+      sc_cert sc <> [] /\ sc_key sc <> [] /\ tc_certs c = true
+      /\ (sc_verify sc = true \/ sc_ca sc <> [] -> tc_client_auth c = RequireAndVerifyClientCert)
+      /\ (sc_verify sc = false -> sc_ca sc = [] -> tc_client_auth c = NoClientCert)
+      /\ (sc_ca sc <> [] <-> tc_client_cas c = true)
+  end.
+Proof.
+  intros W. destruct (tls_decision sc o) as [e| |c] eqn:D; [exact I| |].
+  - apply tls_decision_NoTLS in D. unfold tls_configured in D.
+    destruct (is_empty (sc_cert sc)) eqn:E1, (sc_verify sc), (is_empty (sc_ca sc)) eqn:E3; cbn in D; try discriminate.
+    apply is_empty_true in E1, E3. auto.
+  - apply tls_decision_TLS in D as (Hc & L & C & A & K).
+    assert (sc_key sc <> []) as Hk.
+    { intros E. rewrite E, load_pair_empty_key in L by assumption. discriminate. }
+    repeat split; try assumption.
+    + intros Hv. rewrite A. unfold verify_configured. destruct Hv as [->|Hv]; [reflexivity|].
+      apply is_empty_false in Hv. rewrite Hv. rewrite orb_true_r. reflexivity.
+    + intros Hv Ha. rewrite A. unfold verify_configured. rewrite Hv, Ha. reflexivity.
+    + intros Ha. rewrite K. apply is_empty_false in Ha. rewrite Ha. reflexivity.
+    + intros Ht. rewrite K in Ht. apply is_empty_false. destruct (is_empty (sc_ca sc)); [discriminate|reflexivity].
 Qed.
 
 (** The main TLS theorem: for every security configuration, environment and file-system
